@@ -3,12 +3,12 @@
 package main
 
 import (
-	"sync"
 	"fmt"
 	"net"
 	"os"
 	"path/filepath"
 	"strings"
+	"sync"
 	"time"
 
 	"github.com/IrineSistiana/mosproxy/app/router"
